@@ -132,7 +132,12 @@ class LabReplay:
     def arg(self, objs, n, r):
         if r in ("-", "plate"):
             return objs[n]
-        return objs[n][self.selector(self.regions[r])]
+        ast = self.regions[r]
+        if ast["k"] == "sub":           # a narrowed selection: plate[base][a, b]
+            def py(x):
+                return x["i"] if x["k"] == "at" else slice(None if x["lo"] < 0 else x["lo"], None if x["hi"] < 0 else x["hi"], x["st"] or None)
+            return objs[n][self.selector(ast["base"])][py(ast["a"]), py(ast["b"])]
+        return objs[n][self.selector(ast)]
 
     def what(self, w):
         S = self.pp.Substance
